@@ -574,6 +574,7 @@ impl<D: TextDecorator> SubRenderer<D> {
             r.is_ok() ==> final(self).wtotal() <= old(self).wtotal() + 0x4_0000_0000 || final(self).wtotal() <= old(self).width + 0x4_0000_0000, //@w @C01 #growth_bound
             final(self).lines@.len() >= old(self).lines@.len() && final(self).lines@.take(old(self).lines@.len() as int) =~= old(self).lines@, //@w @C03
             r.is_ok() ==> !final(self).at_block_end && final(self).lines@.len() >= old(self).lines@.len() + 1, //@w @C12 #empty_line_added
+            r.is_ok() ==> (final(self).lines@.last() matches RenderLine::Text(t) && t.len == 0), //@w @C12 #empty_line_is_blank
     {
         html_trace!("add_empty_line()");
         self.flush_all()?;
@@ -582,6 +583,33 @@ impl<D: TextDecorator> SubRenderer<D> {
         self.at_block_end = false;
         html_trace_quiet!("add_empty_line: new lines: {:?}", self.lines);
         Ok(())
+    }
+//@end
+//@item src/render/text_renderer.rs :: impl Renderer for SubRenderer :: fn new_line_hard
+//@sub /-> Result<\(\)>/ ==> -> (r: Result<()>)
+//@auto C01 C12
+    fn new_line_hard(&mut self) -> (r: Result<()>)
+        requires old(self).sr_inv(), tag_ok::<Vec<D::Annotation>>(), //@w
+        ensures //@w
+            final(self).sr_inv(), //@w @C02
+            final(self).same_stacks(old(self)) && final(self).same_config(old(self)) && final(self).decorator == old(self).decorator, //@w @C09
+            r.is_ok() ==> final(self).wrapping.is_none(), //@w @C03
+            old(self).options.allow_width_overflow ==> r.is_ok(), //@w @C11
+            final(self).lines@.len() >= old(self).lines@.len() && final(self).lines@.take(old(self).lines@.len() as int) =~= old(self).lines@, //@w @C03
+            // a hard line break on a line that has no text yet gives a blank line (C12: blank lines are kept); otherwise it only ends the line //@w
+            r.is_ok() && (old(self).wrapping matches Some(w) ==> w.wordlen == 0 && w.line.len == 0) ==> //@w @C12 #br_on_empty_line_gives_blank_line
+                final(self).lines@.len() >= old(self).lines@.len() + 1 && (final(self).lines@.last() matches RenderLine::Text(t) && t.len == 0), //@w @C12 #br_on_empty_line_gives_blank_line
+    {
+        match &self.wrapping {
+            None => self.add_empty_line(),
+            Some(wrapping) => {
+                if wrapping.wordlen == 0 && wrapping.line.len == 0 {
+                    self.add_empty_line()
+                } else {
+                    self.flush_all()
+                }
+            }
+        }
     }
 //@end
 //@item src/render/text_renderer.rs :: impl Renderer for SubRenderer :: fn start_block
